@@ -780,7 +780,7 @@ def main():
             out["error"] = "translator self-test failed on %d of %d concrete points (first: %s): encoding and real function disagree, nothing is concluded" % (st["n_mismatches"], st["concrete_points"], st["mismatches"][0])
             rc = 2
         else:
-            zt, ct = (60, 20) if args.tier == "quick" else (600, 120)
+            zt, ct = (300, 60) if args.tier == "quick" else (900, 300)
             for q in queries_for(args.property, args.tier):
                 if args.only and args.only not in q["name"]:
                     continue
